@@ -70,6 +70,21 @@ def fill_bytes(kind, n):
     return env.det_bytes("c07-" + kind, n)
 
 
+from okdmr.dmrlib.utils.bytes_interface import BytesInterface  # noqa: E402
+
+
+class _Payload(BytesInterface):
+    def __init__(self, b):
+        self.b = b
+
+    def as_bytes(self, endian="big"):
+        return self.b
+
+    @staticmethod
+    def from_bytes(data, endian="big"):
+        return _Payload(data)
+
+
 class Rec(TransmissionObserverInterface):
     def __init__(self):
         self.events = []
@@ -107,7 +122,11 @@ def one_config(acc, cfg):
             llid_destination=2305678, llid_source=2301234, full_message_flag=FullMessageFlag.FirstTryToCompletePacket,
             blocks_to_follow=len(data_bursts), resynchronize_flag=ResynchronizeFlag.DoNotSync, send_sequence_number=0, fragment_sequence_number=8,
         )
-        bursts = TransmissionGenerator.generate_full_data_transmission(packet_type=cls, userdata=payload, data_header=hdr, csbk_count=k, colour_code=cc)
+        userdata = payload
+        if (length + k) % 5 == 0:
+            # the generator also accepts an object that serialises itself (BytesInterface)
+            userdata = _Payload(payload)
+        bursts = TransmissionGenerator.generate_full_data_transmission(packet_type=cls, userdata=userdata, data_header=hdr, csbk_count=k, colour_code=cc)
         raw = [b.as_bytes() for b in bursts]
         calls += 2 + len(raw)
     except Exception as e:  # noqa: BLE001
